@@ -476,3 +476,14 @@ Lemma client_errors_only_refutes :
   /\ s3_put_chunk_noraise (default_retry 1) true [AStatus 503; AStatus 200] = Ret None
   /\ s3_put_chunk_noraise (default_retry 1) true [AStatus 503; AStatus 507] = Ret (Some K_StoreUnavailable).
 Proof. vm_compute. repeat split; reflexivity. Qed.
+
+(* finding C08-F5g as a theorem of the faithful model: a PUT answered with a redirect status that requests cannot follow
+   (301 PermanentRedirect without a Location header, as AWS sends for the wrong regional endpoint) is neither accepted
+   nor an error status: put_chunk / put_chunk_noraise report success and nothing is stored.  The "reported" theorems
+   above therefore carry the guard "every answer is a 4xx / 5xx status or a failure inside requests". *)
+Lemma failed_put_is_reported_refuted :
+  exists s, accepted s = false /\ error_status s = false
+            /\ s3_put_chunk (default_retry 0) true [AStatus s] = Ret tt
+            /\ s3_put_chunk_noraise (default_retry 0) true [AStatus s] = Ret None
+            /\ stored_after (forcelist (default_retry 0)) (status_retries (default_retry 0)) [AStatus s] = false.
+Proof. exists 301. vm_compute. repeat split; reflexivity. Qed.
